@@ -13,6 +13,9 @@ import (
 	pboutput "github.com/streamingfast/substreams/storage/execout/pb"
 
 	"verif/ev"
+	"verif/gdsl"
+	"verif/pgen"
+	"verif/sdsl"
 	"verif/world"
 )
 
@@ -155,4 +158,37 @@ func TestDebugSched(t *testing.T) {
 		}
 	}
 	fmt.Printf("stalled; pending %d\n", len(pending))
+}
+
+// TestDebugMapperFileOfStoreStage: a mapper with a low initial block feeding a store that starts inside a segment;
+// a request for a downstream module first, then a request for the mapper itself over that segment.
+func TestDebugMapperFileOfStoreStage(t *testing.T) {
+	if os.Getenv("VERIF_DEBUG_MAPPERFILE") == "" {
+		t.Skip("development aid")
+	}
+	seg, head := uint64(5), uint64(33)
+	g := gdsl.Graph{Mods: []gdsl.Mod{
+		{Name: "m", Kind: "map", Initial: 1, Entry: "m", Inputs: []gdsl.In{{T: "source", Ref: gdsl.ClockType}}},
+		{Name: "s", Kind: "store", Policy: "set", VType: "string", Initial: 12, Entry: "s", Inputs: []gdsl.In{{T: "map", Ref: "m"}}},
+		{Name: "out", Kind: "map", Initial: 1, Entry: "out", Inputs: []gdsl.In{{T: "source", Ref: gdsl.ClockType}, {T: "store", Ref: "s", Mode: "get"}}},
+	}}
+	p := pgen.Prog{Graph: g, Seed: 7, Beh: map[string]dslrtBehaviour{
+		"m":   {Kind: "map", Seed: 1},
+		"s":   {Kind: "store", Seed: 2, StoreKind: sdsl.Kind{Policy: "set", VType: "string"}, MaxOps: 3},
+		"out": {Kind: "map", Seed: 3},
+	}}
+	dir := newDir()
+	defer os.RemoveAll(dir)
+	runs := []runSpec{
+		{Prod: true, Start: 15, Stop: 20, Output: "out", Workers: 1, Final: 30},
+		{Prod: true, Start: 10, Stop: 15, Output: "m", Workers: 1, Final: 30},
+	}
+	for i, spec := range runs {
+		S := execute(p, spec, seg, head, dir, false)
+		fmt.Printf("run %d err=%v jobs=%+v blocks=%v\n", i, S.res.Err != nil, S.res.Jobs, nums(S.res.DataMessages()))
+		if S.res.Err != nil {
+			fmt.Println(firstLine(S.res.Err))
+		}
+		fmt.Println(listFiles(dir))
+	}
 }
